@@ -58,6 +58,16 @@ Total(p, o) ==
   IN IF base > 0 THEN base ELSE SumOver(S, LAMBDA st : Abs(p.bag[st][o.si]))
 FnsOf(p) == UNION {{V(p, st)[i] : i \in DOMAIN V(p, st)} : st \in DOMAIN p.bag}
 TopRows(p, o) == {[fn |-> e, flat |-> Flat(p, o, e), cum |-> Cum(p, o, e)] : e \in {Ent(o, f) : f \in FnsOf(p)}}
+\* caller -> callee edges of a tree report. A stack is leaf first, so the caller of st[i] is st[i + 1]; an adjacency
+\* counts once per sample; samples whose selected value is 0 do not build the graph; an entry with flat = cum = 0 is not
+\* part of a report and its edges go with it (nothing bridges over it)
+EntSeq(p, o, st) == [i \in DOMAIN Shown(p, o, st) |-> Ent(o, Shown(p, o, st)[i])]
+AdjIn(es, a, b) == a # b /\ \E i \in 1..(Len(es) - 1) : es[i + 1] = a /\ es[i] = b
+Builders(p, o) == {st \in Visible(p, o) : p.bag[st][o.si] # 0}
+ShownEntries(p, o) == {r.fn : r \in {x \in TopRows(p, o) : x.flat # 0 \/ x.cum # 0}}
+EdgeW(p, o, a, b) == SumOver({st \in Builders(p, o) : AdjIn(EntSeq(p, o, st), a, b)}, LAMBDA st : p.bag[st][o.si])
+TreeEdges(p, o) == {[src |-> a, dst |-> b, w |-> EdgeW(p, o, a, b)] :
+                      <<a, b>> \in {pr \in ShownEntries(p, o) \X ShownEntries(p, o) : \E st \in Builders(p, o) : AdjIn(EntSeq(p, o, st), pr[1], pr[2])}}
 \* a traces report: the kept stacks as seen, with their value in the selected column (zero entries are not printed)
 TraceRows(p, o) ==
   LET K == {st \in Kept(p, o) : Len(Shown(p, o, st)) > 0}
